@@ -310,3 +310,18 @@ def run(ctx: Context) -> None:  # noqa: F811
                            "sending the same Request object on another connection: the iterator does not start again, so that attempt carries only what is left of the body "
                            "(possibly nothing) and the caller receives the server's answer to the truncated request")
     rep.floor("C03.R10", "raise sites of ConnectionNotAvailable (both trees)", n, 8)
+
+
+
+_core_run_r11 = run
+
+
+def run(ctx: Context) -> None:  # noqa: F811
+    _core_run_r11(ctx)
+    from . import c19
+
+    if ctx.rep._borrow is not None:
+        return          # already running as a lender: no chains
+    with ctx.rep.borrow({"C19.R6": ("C03.R11", "the Host header (and the HTTP/2 :authority derived from it) that is supplied when the caller gave none names the URL's authority - "
+                                                "host alone iff the port is absent or the scheme's own default:")}):
+        c19.run(ctx)
